@@ -594,7 +594,8 @@ func init() {
 	enumCheck("C05", "exploration",
 		func(q bool) []*EnumPlan {
 			return []*EnumPlan{{Name: "timeout-classes", Cases: c05Cases, Eval: evalTimed("C05")},
-				{Name: "every-timeout-value", Cases: valueCases([]string{"timeout"}), Eval: evalValues("C05")}}
+				{Name: "every-timeout-value", Cases: valueCases([]string{"timeout"}), Eval: evalValues("C05")},
+				{Name: "bulk-long-waits", Cases: c05BulkCases, Eval: evalC05Bulk}}
 		},
 		func(q bool) *SchedPlan {
 			cfg := hapi.Config{FastKeys: 1, Concurrent: 1}
